@@ -409,7 +409,7 @@ def check_case(env, prog, case, label, use_function=False):
     return nviol[0]
 
 
-def cases_for(spec, rng, n_cases=None, extras=True):
+def cases_for(spec, rng, n_cases=None, extras=True, extra_prob=0.2):
     """all cases (n_cases None) or a seeded sample: field statuses x failing subsets of the invocable validators x extra key"""
     names = [f["n"] for f in spec["fields"]]
     ext = {ext_name(spec, n) for n in names}
@@ -423,9 +423,17 @@ def cases_for(spec, rng, n_cases=None, extras=True):
         for st in itertools.product("VAI", repeat=len(names)):
             status = dict(zip(names, st))
             rel = relevant_validators(spec, status)
-            if len(rel) > 6:
-                subsets = [tuple(x for x in rel if rng.random() < 0.5) for _ in range(64)]
-                subsets = sorted(set(subsets) | {(), tuple(rel)})
+            if len(rel) > 4:
+                # field-level validators inflate the table: class-validator outcomes stay exhaustive, the others are sampled
+                cls = [x for x in rel if not x.startswith(("fv_", "nt_"))]
+                oth = [x for x in rel if x.startswith(("fv_", "nt_"))]
+                subsets = set()
+                for k in range(len(cls) + 1):
+                    for cs in itertools.combinations(cls, k):
+                        subsets.add(cs)
+                        for _ in range(2):
+                            subsets.add(tuple(x for x in rel if (x in cs) or (x in oth and rng.random() < 0.4)))
+                subsets = sorted(subsets)
             else:
                 subsets = [s for k in range(len(rel) + 1) for s in itertools.combinations(rel, k)]
             for fs in subsets:
@@ -439,7 +447,7 @@ def cases_for(spec, rng, n_cases=None, extras=True):
         rel = relevant_validators(spec, status)
         pf = rng.choice([0.0, 0.3, 0.5, 0.8])
         fs = tuple(x for x in rel if rng.random() < pf)
-        ex = rng.choice(extra_opts) if rng.random() < 0.2 else None
+        ex = rng.choice(extra_opts[1:] if extra_prob >= 1 and len(extra_opts) > 1 else extra_opts) if rng.random() < extra_prob else None
         key = (tuple(status.values()), fs, ex)
         if key in seen:
             continue
@@ -447,7 +455,7 @@ def cases_for(spec, rng, n_cases=None, extras=True):
         yield {"status": status, "fail": list(fs), "extra": ex}
 
 
-def run_program(env, spec, rng, label, n_cases=None, extras=True):
+def run_program(env, spec, rng, label, n_cases=None, extras=True, then_extras=0):
     harness.reset_all()
     try:
         prog = Prog(spec, env)
@@ -469,6 +477,9 @@ def run_program(env, spec, rng, label, n_cases=None, extras=True):
         for case in cases_for(spec, rng, n_cases, extras):
             k += 1
             check_case(env, prog, case, label, use_function=(k % 10 == 0))
+        if then_extras:  # a few more cases with an unexpected key on the same program
+            for case in cases_for(spec, rng, then_extras, True, extra_prob=1.0):
+                check_case(env, prog, case, label + "+extra")
         if len(env.samples) < 4 and rng.random() < 0.02:
             env.sample({"label": label, "source": prog.loaded.source})
     finally:
@@ -571,11 +582,10 @@ def run(env):
         rng = random.Random(h64("c10", env.seed, i))
         run_program(env, plain_spec(shape, f"P{i}"), rng, f"core#{i}/plain", n_cases=None, extras=False)
         spec = decorate(shape, f"D{i}", rng)
-        run_program(env, spec, rng, f"core#{i}/decorated", n_cases=None, extras=False)
-        run_program_extras(env, spec, rng, f"core#{i}/decorated+extra")
+        run_program(env, spec, rng, f"core#{i}/decorated", n_cases=None, extras=False, then_extras=6)
         done += 1
         env.count("core_shapes_done")
-    nprog = env.n(0, 24000)
+    nprog = env.n(0, 16000)
     for j in range(nprog):
         if env.out_of_time():
             env.notes.append("time cap reached in the random part")
@@ -584,11 +594,6 @@ def run(env):
         shape = random_shape(rng)
         spec = decorate(shape, f"R{env.shard}_{j}", rng)
         run_program(env, spec, rng, f"random#{env.shard}.{j}", n_cases=40)
-
-
-def run_program_extras(env, spec, rng, label):
-    """a few cases with an unexpected key on an already exhaustively executed decorated program"""
-    run_program(env, spec, rng, label, n_cases=6, extras=True)
 
 
 def finish_coverage(cov, counters, tier):
